@@ -6,9 +6,13 @@
 (*                                                                          *)
 (* Record fields used:                                                      *)
 (*   ev    "Submit" | "Poll" | "Expire" | "Chunk" | "Close"                 *)
-(*   r cb h   Submit: request number, expects a response, request handle    *)
+(*   r cb h cls  Submit: request number, expects a response, request handle, *)
+(*            timeout class ("short": its deadline is before that of every   *)
+(*            "long" request; within a class deadlines follow submission)    *)
 (*   took id  Poll: the request taken from the queue and the request id it  *)
 (*            was sent with (0 = none)                                      *)
+(*   armed    Poll: the request id for whose deadline the transport's timer *)
+(*            is armed when the deadline check is over (0 = not armed)      *)
 (*   id kind h hit  Chunk: request id the chunk carries, "inter" | "final" | *)
 (*            "abort", request handle inside the response it belongs to;    *)
 (*            Expire: the request id whose deadline passed, hit = it was    *)
@@ -32,7 +36,7 @@ M35Init == [sub |-> <<>>,      \* r -> [cb, h] for submitted requests
 ReqStatus(s) == IF s = "Good" THEN "BadConnectionClosed" ELSE s
 
 Mon35Step(g, e) ==
-  LET sub1 == IF e.ev = "Submit" THEN [x \in DOMAIN g.sub \cup {e.r} |-> IF x = e.r THEN [cb |-> e.cb, h |-> e.h] ELSE g.sub[x]]
+  LET sub1 == IF e.ev = "Submit" THEN [x \in DOMAIN g.sub \cup {e.r} |-> IF x = e.r THEN [cb |-> e.cb, h |-> e.h, cls |-> e.cls] ELSE g.sub[x]]
               ELSE g.sub
       idr1 == IF e.ev = "Poll" /\ e.took # 0 THEN [x \in DOMAIN g.idr \cup {e.id} |-> IF x = e.id THEN e.took ELSE g.idr[x]]
               ELSE g.idr
@@ -69,8 +73,16 @@ Mon35Step(g, e) ==
       v4 == IF e.ev = "Chunk" /\ e.kind \in {"final", "abort"} /\ ~closedBefore
                /\ target \in want /\ before(target) = 0 /\ cnt(target) = 0
             THEN {"response-not-delivered"} ELSE {}
+      \* "with BadTimeout when its deadline passes first": the transport acts only when it is woken, so after a
+      \* deadline check its timer has to be armed for the earliest deadline among the requests still pending
+      waiting == {id \in DOMAIN idr1 : idr1[id] \in want /\ done1[idr1[id]] = 0 /\ id \notin exp1}
+      dlOf(id) == <<IF sub1[idr1[id]].cls = "short" THEN 0 ELSE 1, idr1[id]>>
+      dlLe(a, b) == a[1] < b[1] \/ (a[1] = b[1] /\ a[2] <= b[2])
+      v6 == IF e.ev = "Poll" /\ ~closedNow /\ waiting # {}
+               /\ ~(e.armed \in waiting /\ \A x \in waiting : dlLe(dlOf(e.armed), dlOf(x)))
+            THEN {"timer-armed-after-an-earlier-deadline"} ELSE {}
       \* once the transport has closed nothing is left pending
       v5 == IF closedNow /\ \E r \in want : done1[r] = 0 THEN {"pending-after-close"} ELSE {}
   IN [g |-> [sub |-> sub1, idr |-> idr1, exp |-> exp1, done |-> done1, closed |-> closed1],
-      viol |-> v1 \cup v2 \cup v3 \cup v4 \cup v5]
+      viol |-> v1 \cup v2 \cup v3 \cup v4 \cup v5 \cup v6]
 =============================================================================
